@@ -43,6 +43,20 @@ let run_op (op : string) (args : Sx.t list) : opres =
     let r = ax_op (fillna_model vc) (fun t vs -> match to_list vc with Ok v0s -> fillna_spec v0s t vs | Err e -> Err e) l in
     { r with inputs_valid = r.inputs_valid && valid_b vc;
              unsupported = (if has_union (type_of vc) then "union" else r.unsupported) }
+  | "reduce", [A rn; a; mk; kd; l] ->
+    let r = (match rn with
+        | "count" -> RCount | "count_nonzero" -> RCountNonzero | "sum" -> RSum | "prod" -> RProd
+        | "any" -> RAny | "all" -> RAll | "min" -> RMin | "max" -> RMax | "argmin" -> RArgmin | "argmax" -> RArgmax
+        | _ -> bad ("reducer " ^ rn)) in
+    let mask = bool_of_sx mk and keep = bool_of_sx kd in
+    let res = ax_op (reduce_model r (z a) mask keep) (reduce_spec r (z a) mask keep) l in
+    (* axis 0 without keepdims yields a single value, not an array *)
+    let c = content_of_sx l in
+    let whole = (match resolve_axis (type_of c) Z0 (z a) with Ok Z0 -> true | _ -> false) in
+    if whole && not keep then
+      let first o = (match o with OVal (VList [v]) -> OVal v | OVal _ -> OBad "axis0-shape" | o -> o) in
+      { res with model = first res.model; spec = first res.spec }
+    else res
   | "localindex", [a; l] -> ax_op (localindex_model (z a)) (localindex_spec (z a)) l
   | "rpad", [tg; a; l] -> ax_op (rpad_model (z tg) (z a)) (rpad_spec (z tg) (z a)) l
   | "rpadclip", [tg; a; l] -> ax_op (rpadclip_model (z tg) (z a)) (rpadclip_spec (z tg) (z a)) l
